@@ -92,6 +92,9 @@ class Walker:
                 break
             o = self.statement(st, cur)
             cur = o.normal
+            merge = getattr(self.d, 'merge', None)
+            if merge is not None and len(cur) > 1:
+                cur = merge(cur)
             o.normal = set()
             out.merge(o)
             if len(cur) > self.d.MAX_STATES:
@@ -232,7 +235,8 @@ class Walker:
             out.cont = set(states)
             return out
         if isinstance(st, (ast.FunctionDef, ast.AsyncFunctionDef, ast.ClassDef)):
-            out.normal = set(states)
+            hook = getattr(d, 'definition', None)
+            out.normal = set(states) if hook is None else {hook(s, st) for s in states}
             return out
         if isinstance(st, ast.Match):
             raise AnalysisError('path walker: match statement not supported')
